@@ -1726,7 +1726,7 @@ Proof. intros s (its & Hok & Heof & E). exists its. split; [apply items_ok_ok2; 
 (* ================================================================================== *)
 Module DocTxnExamples.
 
-Ltac lit := (eexists; split; vm_compute; reflexivity).
+Ltac lit := (eexists; split; [vm_compute; reflexivity | vm_compute; reflexivity]).
 Lemma mk_amount : forall d l s c, doc_decimal l -> sps0 s -> all commodity_char c ->
   doc_value_expr d (l ++ s ++ c).
 Proof. intros. apply DV_amount. constructor; assumption. Qed.
@@ -1854,16 +1854,19 @@ Definition ex_text : list N := render_lines (flat_map item_lines ex_items).
 Lemma ex_in_grammar : In_doc_grammar_txn ex_text.
 Proof.
   exists ex_items. split; [| split; [| reflexivity]].
-  - cbn [items_ok2 ex_items]. split; [right; exact ex_transaction |]. split; [| intros HC; inversion HC; discriminate].
-    split; [reflexivity |]. split.
-    + left. apply D_comment; [discriminate |]. repeat constructor.
+  - cbn [items_ok2 ex_items].
+    split; [right; exact ex_transaction |]. split; [| intros _; exact I].
+    split; [reflexivity |].
+    split; [| split].
+    + left. apply D_comment; [discriminate |]. apply Forall_cons; [| apply Forall_nil].
       apply (CL 59 [32; 116; 111; 112; 32; 99; 111; 109; 109; 101; 110; 116]); reflexivity.
-    + split; [| intros _; intros HC; inversion HC; discriminate]. split; [| split; [exact I | exact (fun _ => I)]].
+    + split; [| split; [exact I | intros _; exact I]].
       left. apply (D_account [97; 99; 99; 111; 117; 110; 116; 32; 65; 115; 115; 101; 116; 115; 58; 67; 97; 115; 104] Lf [([32; 32; 110; 111; 116; 101; 32; 32; 116; 104; 101; 32; 119; 97; 108; 108; 101; 116], Eof)]).
       * apply (AH [32] [65; 115; 115; 101; 116; 115; 58; 67; 97; 115; 104] []); [split; [discriminate | reflexivity] | | reflexivity].
-        split; [discriminate |]. split; reflexivity || discriminate.
-      * repeat constructor. apply (DNote doc_account [32; 32] [32; 32] [116; 104; 101; 32; 119; 97; 108; 108; 101; 116]);
+        split; [discriminate |]. split; [reflexivity | discriminate].
+      * apply Forall_cons; [| apply Forall_nil]. apply (DNote doc_account [32; 32] [32; 32] [116; 104; 101; 32; 119; 97; 108; 108; 101; 116]);
           [split; [discriminate | reflexivity] | split; [discriminate | reflexivity] | reflexivity].
+    + intros _ HC. cbn in HC. inversion HC. discriminate.
   - cbn. repeat split; discriminate.
 Qed.
 
@@ -1873,3 +1876,67 @@ Proof. apply doc_grammar_txn_accepted. exact ex_in_grammar. Qed.
 Example ex_three_entries : match parse_ledger ex_text with LOk es => length es = 3%nat | _ => False end.
 Proof. vm_compute. reflexivity. Qed.
 
+(* ---- documented texts that the parser model rejects; each class is excluded from the grammar by a
+   choice listed at the top of Model/DocGrammarTxn.v ---- *)
+(* account ::= no-sp (no-sp | " " no-sp)* with no-sp ::= [^ \t\r\n]: U+00A0 is a no-sp, so the posting
+   line `  <U+00A0>` is documented; the parser rejects an account made of Unicode white space only
+   (.verify(!x.trim().is_empty())).  Excluded by wf_account.
+   2024/01/01\n  <U+00A0>\n *)
+Definition finding_blank_account_text : list N :=
+  [50; 48; 50; 52; 47; 48; 49; 47; 48; 49; 10; 32; 32; 160; 10].
+Example finding_blank_account : exists e, parse_ledger finding_blank_account_text = LErr [] e /\ pe_label e = L_account /\ pe_span e = (13, 15).
+Proof. eexists. split; [vm_compute; reflexivity | split; reflexivity]. Qed.
+(* metadata-comment read as `any text`: `:a: hello` is neither key-value (a tag has no ":") nor
+   tag-words ((tag ":")+ ends after `:a:`); the parser commits to tag-words after `:a:` and then
+   wants the line end; the line is then taken for a posting.  Excluded by tags_like.
+   2024/01/01\n ; :a: hello\n *)
+Definition finding_tag_like_comment_text : list N :=
+  [50; 48; 50; 52; 47; 48; 49; 47; 48; 49; 10; 32; 59; 32; 58; 97; 58; 32; 104; 101; 108; 108; 111; 10].
+Example finding_tag_like_comment : exists e, parse_ledger finding_tag_like_comment_text = LErr [] e /\ pe_label e = L_account /\ pe_span e = (12, 13).
+Proof. eexists. split; [vm_compute; reflexivity | split; reflexivity]. Qed.
+(* posting-line ::= sp+ (clear-state sp* )? account: the account `*` (a no-sp) without clear-state is
+   documented; the parser reads `*` as the clear-state and finds no account.  (An account like
+   `*foo` is accepted, as the cleared account `foo`.)  Excluded: without a clear-state the account
+   does not start with * or !.
+   2024/01/01\n  *\n *)
+Definition finding_mark_account_text : list N :=
+  [50; 48; 50; 52; 47; 48; 49; 47; 48; 49; 10; 32; 32; 42; 10].
+Example finding_mark_account : exists e, parse_ledger finding_mark_account_text = LErr [] e /\ pe_label e = L_account /\ pe_span e = (14, 15).
+Proof. eexists. split; [vm_compute; reflexivity | split; reflexivity]. Qed.
+(* payee ::= [^\r\n;]* may start with "(" : the code parser then runs over the following lines up
+   to the next ")" ; here it swallows `account x` and leaves the sub-directive `  note  two
+   blanks` to be read as a posting.  Excluded: without a code the payee does not start with "(".
+   2024/01/01 (foo\naccount x)\n  note  two blanks\n *)
+Definition finding_open_paren_payee_text : list N :=
+  [50; 48; 50; 52; 47; 48; 49; 47; 48; 49; 32; 40; 102; 111; 111; 10; 97; 99; 99; 111; 117; 110; 116; 32; 120; 41; 10; 32; 32; 110; 111; 116; 101; 32; 32; 116; 119; 111; 32; 98; 108; 97; 110; 107; 115; 10].
+Example finding_open_paren_payee : exists e, parse_ledger finding_open_paren_payee_text = LErr [] e /\ pe_label e = L_post_meta /\ pe_span e = (35, 36).
+Proof. eexists. split; [vm_compute; reflexivity | split; reflexivity]. Qed.
+(* date ::= <yyyy/mm/dd>: a day that does not exist is rejected (chrono).  Excluded by chrono_date.
+   2024/02/30\n *)
+Definition finding_calendar_text : list N :=
+  [50; 48; 50; 52; 47; 48; 50; 47; 51; 48; 10].
+Example finding_calendar : exists e, parse_ledger finding_calendar_text = LErr [] e /\ pe_label e = L_txn_date /\ pe_span e = (0, 1).
+Proof. eexists. split; [vm_compute; reflexivity | split; reflexivity]. Qed.
+(* comma-decimal ::= number+ ...: 2^96 does not fit the 96 bit mantissa.  Excluded by `fits`.
+   2024/01/01\n a  79228162514264337593543950336\n *)
+Definition finding_too_big_text : list N :=
+  [50; 48; 50; 52; 47; 48; 49; 47; 48; 49; 10; 32; 97; 32; 32; 55; 57; 50; 50; 56; 49; 54; 50; 53; 49; 52; 50; 54; 52; 51; 51; 55; 53; 57; 51; 53; 52; 51; 57; 53; 48; 51; 51; 54; 10].
+Example finding_too_big : exists e, parse_ledger finding_too_big_text = LErr [] e /\ pe_label e = L_post_meta /\ pe_span e = (15, 16).
+Proof. eexists. split; [vm_compute; reflexivity | split; reflexivity]. Qed.
+(* paren-expr nested 101 times (MAX_EXPR_DEPTH = 100, known finding F7); 100 levels are accepted.
+   Excluded by the depth index of doc_value_expr. *)
+Definition finding_depth_101_text : list N :=
+  [50; 48; 50; 52; 47; 48; 49; 47; 48; 49; 10; 32; 97; 32; 32; 40; 40; 40; 40; 40; 40; 40; 40; 40; 40; 40; 40; 40; 40; 40; 40; 40; 40; 40; 40; 40; 40; 40; 40; 40; 40; 40; 40; 40; 40; 40; 40; 40; 40; 40; 40; 40; 40; 40; 40; 40; 40; 40; 40; 40; 40; 40; 40; 40; 40; 40; 40; 40; 40; 40; 40; 40; 40; 40; 40; 40; 40; 40; 40; 40; 40; 40; 40; 40; 40; 40; 40; 40; 40; 40; 40; 40; 40; 40; 40; 40; 40; 40; 40; 40; 40; 40; 40; 40; 40; 40; 40; 40; 40; 40; 40; 40; 40; 40; 40; 40; 49; 41; 41; 41; 41; 41; 41; 41; 41; 41; 41; 41; 41; 41; 41; 41; 41; 41; 41; 41; 41; 41; 41; 41; 41; 41; 41; 41; 41; 41; 41; 41; 41; 41; 41; 41; 41; 41; 41; 41; 41; 41; 41; 41; 41; 41; 41; 41; 41; 41; 41; 41; 41; 41; 41; 41; 41; 41; 41; 41; 41; 41; 41; 41; 41; 41; 41; 41; 41; 41; 41; 41; 41; 41; 41; 41; 41; 41; 41; 41; 41; 41; 41; 41; 41; 41; 41; 41; 41; 41; 41; 41; 41; 41; 41; 41; 41; 41; 41; 41; 41; 41; 10].
+Example finding_depth_101 : exists e, parse_ledger finding_depth_101_text = LErr [] e /\ pe_label e = L_post_meta /\ pe_span e = (15, 16).
+Proof. eexists. split; [vm_compute; reflexivity | split; reflexivity]. Qed.
+(* the same shape with 100 levels is accepted *)
+Example depth_100_accepted : exists es, parse_ledger
+  [50; 48; 50; 52; 47; 48; 49; 47; 48; 49; 10; 32; 97; 32; 32; 40; 40; 40; 40; 40; 40; 40; 40; 40; 40; 40; 40; 40; 40; 40; 40; 40; 40; 40; 40; 40; 40; 40; 40; 40; 40; 40; 40; 40; 40; 40; 40; 40; 40; 40; 40; 40; 40; 40; 40; 40; 40; 40; 40; 40; 40; 40; 40; 40; 40; 40; 40; 40; 40; 40; 40; 40; 40; 40; 40; 40; 40; 40; 40; 40; 40; 40; 40; 40; 40; 40; 40; 40; 40; 40; 40; 40; 40; 40; 40; 40; 40; 40; 40; 40; 40; 40; 40; 40; 40; 40; 40; 40; 40; 40; 40; 40; 40; 40; 40; 49; 41; 41; 41; 41; 41; 41; 41; 41; 41; 41; 41; 41; 41; 41; 41; 41; 41; 41; 41; 41; 41; 41; 41; 41; 41; 41; 41; 41; 41; 41; 41; 41; 41; 41; 41; 41; 41; 41; 41; 41; 41; 41; 41; 41; 41; 41; 41; 41; 41; 41; 41; 41; 41; 41; 41; 41; 41; 41; 41; 41; 41; 41; 41; 41; 41; 41; 41; 41; 41; 41; 41; 41; 41; 41; 41; 41; 41; 41; 41; 41; 41; 41; 41; 41; 41; 41; 41; 41; 41; 41; 41; 41; 41; 41; 41; 41; 41; 41; 41; 41; 10] = LOk es.
+Proof. eexists. vm_compute. reflexivity. Qed.
+
+End DocTxnExamples.
+
+Print Assumptions doc_value_expr_accepted.
+Print Assumptions doc_posting_accepted.
+Print Assumptions doc_transaction_accepted.
+Print Assumptions doc_grammar_txn_accepted.
